@@ -24,4 +24,63 @@ def main():
             bad += 1
             print("SANY failed on", f, "\n", out[-1500:])
     print("setup: harness built, %d/%d specification modules parse" % (len(mods) - bad, len(mods)))
-    return 0 if bad == 0 else 2
+    if bad:
+        return 2
+    return binding_selftest(wd)
+
+
+def binding_selftest(wd):
+    """The trace specifications must accept what the real code does and REJECT a corrupted copy of it:
+    one logged field changed, one hook event dropped.  (A spec that accepts everything binds nothing.)"""
+    import json
+    inputs = ["SELECT (1 +) + f(x); SELECT a.b FROM t -- c\n", "SELECT 1 /* c */ , 'x' FROM ARRAY<STRUCT<a INT64>>[]", "SELECT CAST(1 AS STRUCT<a ARRAY<INT64>>), (SELECT 2 +"]
+    src = os.path.join(wd, "self.in")
+    with open(src, "w") as fh:
+        for t in inputs:
+            fh.write(json.dumps(list(t.encode())) + "\n")
+    ok = True
+
+    def validate(module, prefix, step):
+        total, rejects, _, _ = common.validate_chunks(module, [], prefix, 1, os.path.join(wd, "self-" + os.path.basename(prefix)), step_mode=step)
+        return len(rejects)
+
+    # lexer traces
+    pre = os.path.join(wd, "selflex")
+    common.harness_json(["lexrec", "-in", src, "-out", pre])
+    good = validate("LexTrace", pre, False)
+    recs = [json.loads(l) for l in open(pre + ".0.ndjson")]
+    recs[0]["toks"][2]["e"] += 1                      # one token end off by one
+    recs[1]["toks"][1]["cs"] = []                     # a comment forgotten
+    del recs[2]["toks"][3]                            # a token dropped
+    cor = os.path.join(wd, "selflexbad")
+    with open(cor + ".0.ndjson", "w") as fh:
+        for r in recs:
+            fh.write(json.dumps(r) + "\n")
+    badn = validate("LexTrace", cor, False)
+    print("setup: binding self-test LexTrace: %d rejects on real traces, %d rejects on 3 corrupted traces" % (good, badn))
+    ok = ok and good == 0 and badn >= 3
+    # parser traces
+    pre = os.path.join(wd, "selfpar")
+    common.harness_json(["parserec", "-in", src, "-entries", "ParseStatements", "-out", pre])
+    good = validate("ParserTrace", pre, True)
+    recs = [json.loads(l) for l in open(pre + ".0.ndjson")]
+    evs = recs[0]["evs"]
+    k = next(i for i, e in enumerate(evs) if e[0] == "R")
+    evs[k][11] = 0                                    # the recovery "forgot" to record its error
+    evs = recs[1]["evs"]
+    k = next(i for i, e in enumerate(evs) if e[0] == "T" and e[2] > 10)
+    del evs[k]                                        # one Tok hook event dropped
+    evs = recs[2]["evs"]
+    k = max(i for i, e in enumerate(evs) if e[0] == "D")
+    evs[k][11] += 1                                   # a Bad node claims one token more than was skipped
+    cor = os.path.join(wd, "selfparbad")
+    with open(cor + ".0.ndjson", "w") as fh:
+        for r in recs:
+            fh.write(json.dumps(r) + "\n")
+    badn = validate("ParserTrace", cor, True)
+    print("setup: binding self-test ParserTrace: %d rejects on real traces, %d rejects on 3 corrupted traces" % (good, badn))
+    ok = ok and good == 0 and badn >= 3
+    if not ok:
+        print("setup: binding self-test FAILED")
+        return 2
+    return 0
